@@ -29,6 +29,7 @@ RULE = (
     "cell); maps whose maximum is attained in >= 2 cells are counted separately (tied_map_threshold_pairs)"
 )
 ASSUMPTIONS = [
+    "dtype family: float16 / bfloat16 / float64 single-peak maps with the maximum at each of the last 80 positions of a 320-long axis, rough detector only (integral refinement is not defined for half precision in this code base)",
     "history part: all ordered pairs (thorough: triples) of a small call alphabet chosen to collide in every shape-like cache key, each history in a forked child, compared with a fresh-process result",
     "bounded scope: 'all float maps' = all maps with h,w <= 3 (plus 1xN/Nx1 strips N<=5; thorough: 3x4, 4x3 over 3 levels, 4x4 over 2 levels) over <= 4 value levels {-1,0,0.5,1}; refinement on those maps raw and embedded in 7x7 zero maps, on 9x9 Gaussian bumps (centres on the 1/4-px lattice quick, 1/8-px thorough; sigma 1, 1.5, 2.5; amplitudes 1 and 0.15) and on mirror-symmetric 3x3 bumps",
     "thresholds {-2, 0, 0.2, 0.5, 0.75, 2} are passed as the float64 value of their float32 rounding; 'below the threshold' is read strictly (a maximum equal to the threshold is a valid peak)",
@@ -530,6 +531,51 @@ def history_run(entry):
         return list(fn(t, threshold=c["thr"], refinement=None))
     return list(fn(t, threshold=c["thr"], refinement="integral", integral_patch_size=c["patch"]))
 
+def dtype_family(part):
+    """Reduced / extended precision maps (what a network emits under fp16 / bf16 autocast, or float64): single-peak
+    maps whose maximum sits at every one of the last 80 positions of a 320-long axis (indices that half precision
+    cannot represent exactly), through find_global_peaks_rough.  Oracle as everywhere: reported cell attains the
+    maximum, reported value equals it; an all-below-threshold channel gives NaN / 0."""
+    import torch
+
+    from sleap_nn.inference import peak_finding as pf
+
+    for dt in (torch.float16, torch.bfloat16, torch.float64):
+        for axis, (H, W) in (("x", (1, 320)), ("y", (320, 1)), ("x", (3, 300))):
+            L = W if axis == "x" else H
+            pos = list(range(L - 80, L))
+            maps = torch.full((len(pos), 2, H, W), 0.25, dtype=dt)
+            for i, p_ in enumerate(pos):
+                if axis == "x":
+                    maps[i, 0, H // 2, p_] = 1.0
+                else:
+                    maps[i, 0, p_, W // 2] = 1.0
+                maps[i, 1] = 0.125  # below the threshold
+            case = {"kind": "dtype", "dtype": str(dt), "H": H, "W": W, "axis": axis}
+            part.count(len(pos))
+            part.transition()
+            key = f"dtype:{dt}:{H}x{W}:{axis}"
+            part.state(key)
+            part.nontriv(key)
+            part.sample(case, True)
+            try:
+                pts, vals = pf.find_global_peaks_rough(maps, threshold=0.2)
+            except Exception as e:
+                part.violation(case, f"find_global_peaks_rough raised {type(e).__name__} on {dt} maps: {e}")
+                continue
+            pts64, v64 = pts.to(torch.float64).numpy(), vals.to(torch.float64).numpy()
+            part.outcome(f"{key}:{pts.dtype}")
+            for i, p_ in enumerate(pos):
+                want = (float(p_), float(H // 2)) if axis == "x" else (float(W // 2), float(p_))
+                got = (float(pts64[i, 0, 0]), float(pts64[i, 0, 1]))
+                if got != want or abs(v64[i, 0] - 1.0) > 1e-3:
+                    part.violation(dict(case, peak=p_), f"{dt} map {H}x{W} with its maximum at {axis}={p_}: reported cell (x,y)={got} value {v64[i, 0]}, the maximum is at {want} (value 1.0)")
+                    break
+                if not (pts64[i, 1] != pts64[i, 1]).all() or v64[i, 1] != 0:
+                    part.violation(dict(case, peak=p_), f"{dt} map: channel below the threshold reported {pts64[i, 1].tolist()} value {v64[i, 1]} (expected NaN / 0)")
+                    break
+
+
 def run(ctx):
     core.setup_torch()
     # E2 part first (the parent has not called the functions yet): every ordered pair / triple of a small call alphabet
@@ -549,9 +595,16 @@ def run(ctx):
     ctx.bounds = {"generators": bounds, "packings": ["A:(N,1)", "B:(ceil(N/3),3) rotated"], "batch": BATCH}
     jobs = core.rotate(jobs, ctx.seed)
     core.pmap(ctx, work, core.shard_list(jobs, max(16, min(len(jobs), 96))))
+    dtype_family(ctx)
 
 
 def replay(case):
+    if isinstance(case, dict) and case.get("kind") == "dtype":
+        core.setup_torch()
+        part = core.Part()
+        dtype_family(part)
+        hits = [m for c, m in part.viol if c.get("dtype") == case.get("dtype") and c.get("H") == case.get("H") and c.get("axis") == case.get("axis")]
+        return {"violates": bool(hits), "messages": hits[:2]}
     if isinstance(case, dict) and case.get("kind") == "history":
         core.setup_torch()
         from mc import history as _history
